@@ -195,6 +195,8 @@ Leaves == <<
   [name |-> "g",   decl |-> "Flag",   en |-> ""],
   [name |-> "e",   decl |-> "Enum",   en |-> "Ea"],
   [name |-> "h",   decl |-> "Enum",   en |-> "Eb"],
+  \* Ed is the enum that an IMPORTED module also calls `Ea' (same name, same value names): a different type
+  [name |-> "m",   decl |-> "Enum",   en |-> "Ed"],
   [name |-> "s",   decl |-> "Struct", en |-> ""],
   \* an inline bits field: its type is the nested type `Flag' -- opaque like any structure, NOT the prelude's Flag
   [name |-> "s.flag", decl |-> "Struct", en |-> ""],
@@ -236,7 +238,7 @@ SiteTypes(site) ==
   CASE site \in {"start", "size", "len", "enumv", "amax"} -> {TInt}
     [] site \in {"cond", "sreq", "freq", "asig"}           -> {TBool}
     [] site \in {"abo", "atxt"}                            -> {TStr}
-    [] site = "virt" -> {TInt, TBool} \cup {TEnum(en) : en \in {"Ea", "Eb", "Ec"}}
+    [] site = "virt" -> {TInt, TBool} \cup {TEnum(en) : en \in {"Ea", "Eb", "Ec", "Ed"}}
 
 \* the rule that is broken when a well-typed expression of another type sits there
 SiteRule(site) ==
